@@ -310,6 +310,103 @@ def oracle(seed, tier):
     return res
 
 
+def legacy_history_oracle(seed, tier):
+    """Isolation for the legacy front-end: several downloads through ONE `S3Transfer` object, some of
+    them failing on the local side (the destination directory does not exist: the io thread's open()
+    fails while the part threads go on) or on the stream (a fatal body fault); every download must end
+    exactly as the same download does on an S3Transfer object of its own."""
+    import threading
+    from s3transfer import S3Transfer, TransferConfig
+    res = OracleResult('C18')
+    rng = rng_for(seed, 'legacy-history')
+    tmpdir = tempfile.mkdtemp(prefix='s3v-lh-')
+
+    def one(s3t, fake, key, path):
+        box = {}
+
+        def work():
+            try:
+                s3t.download_file('b', key, path)
+                with open(path, 'rb') as f:
+                    box['out'] = ('ok', f.read())
+            except BaseException as e:   # noqa
+                box['out'] = ('raise', type(e).__name__)
+        th = threading.Thread(target=work, daemon=True)
+        th.start()
+        th.join(8)
+        if th.is_alive():
+            return ('hang', None)
+        return box['out']
+    try:
+        for it in range(12 if tier == 'quick' else 300):
+            thr, chunk = rng.choice([(4, 3), (6, 4), (50, 8)]), None
+            thr, chunk = thr
+            cfg = dict(multipart_threshold=thr, multipart_chunksize=chunk, num_download_attempts=2, max_concurrency=rng.choice([1, 2]),
+                       max_io_queue=100)      # (a queue that fills while the io thread is dead blocks the part threads of the
+                                              #  legacy downloader for good: outside the properties, which speak of the manager there)
+            steps = []
+            for k in range(rng.randrange(2, 5)):
+                size = rng.choice([3, 8, 11, 13])
+                steps.append({'key': 'k%d' % k, 'size': size, 'fails': rng.choice(['no', 'no', 'missing-directory', 'fatal-body'])})
+            steps[-1]['fails'] = 'no'
+            objs = {st['key']: bytes((i * 7 + 31 * n + 1) % 256 for i in range(st['size'])) for n, st in enumerate(steps)}
+
+            def mkfake():
+                f = FakeS3()
+                for key, data in objs.items():
+                    f.objects[('b', key)] = data
+
+                def script(kw, start):
+                    st = next(x for x in steps if x['key'] == kw['Key'])
+                    if st['fails'] == 'fatal-body':
+                        return [1, ('fault', lambda: InjectedFault('body'))]
+                    return None
+                f.get_script_fn = script
+                return f
+            shared_fake = mkfake()
+            shared = S3Transfer(shared_fake, TransferConfig(**cfg))
+            hist = []
+            for n, st in enumerate(steps):
+                d = os.path.join(tmpdir, 'it%d-%d' % (it, n))
+                if st['fails'] != 'missing-directory':
+                    os.makedirs(d, exist_ok=True)
+                got = one(shared, shared_fake, st['key'], os.path.join(d, 'shared'))
+                want = one(S3Transfer(mkfake(), TransferConfig(**cfg)), None, st['key'], os.path.join(d, 'alone'))
+                hist.append(dict(st))
+                res.evaluations += 1
+                res.hit('legacy:%s:%s' % (st['fails'], 'ranged' if st['size'] >= thr else 'single'))
+                wit = {'config': cfg, 'downloads_through_one_S3Transfer': list(hist)}
+                if want[0] == 'hang':
+                    break          # the download hangs on its own as well: nothing to compare
+                if got[0] == 'hang':
+                    res.violation('legacy-history:hangs', wit, 'download %d through the shared S3Transfer object does not return' % n)
+                    break
+                if got != want:
+                    res.violation('legacy-history:outcome-depends-on-earlier-transfers', wit,
+                                  'download %d of %r: %s through the shared object, %s on an object of its own'
+                                  % (n, st['key'], _short(got), _short(want)))
+                if want[0] == 'ok' and want[1] != objs[st['key']]:
+                    res.violation('legacy-history:bytes-differ', wit, 'download %d alone: wrong bytes' % n)
+                if n and any(h['fails'] != 'no' for h in hist[:-1]):
+                    res.nontrivial.add((it, n))
+            if res.enough():
+                break
+        res.samples.append({'config': cfg, 'downloads_through_one_S3Transfer': hist})
+    finally:
+        shutil.rmtree(tmpdir, ignore_errors=True)
+    return res
+
+
+def legacy_history_oracle_c02(seed, tier):
+    r = legacy_history_oracle(seed, tier)
+    r.prop = 'C02'
+    return r
+
+
+def _short(o):
+    return '%s %s' % (o[0], ('%d bytes %r' % (len(o[1]), o[1][:12])) if isinstance(o[1], bytes) else o[1])
+
+
 def progress_oracle(seed, tier):
     """C09 judged directly on one GetObject task: whatever mix of faults (raised by the call or by
     the body, after any number of bytes), the running progress sum stays within [0, length] and a
